@@ -40,9 +40,9 @@ CHECKS = {
  'C05': dict(
    technique='Coq proof (trace monad over the mapped function) + extracted-model correspondence of results and call traces + oracle on all map variants',
    text='Theorems: for every total f, tree_map calls f exactly on the rows (leaf_i(t), sub_i(rest_1), ...) once per leaf in flatten order and returns the treespec of t filled with f\'s values; '
-        'a rest that is not a suffix stops the map before any call; the underscore variant returns the original tree. The run compares result and full call trace (argument identities) with the model '
+        'a rest that is not a suffix stops the map before any call; the underscore variant returns the original tree; PyTreeSpec.traverse without functions is unflatten, and for ANY leaf and node functions (raising ones included) the engine\'s stack machine over the node array equals the tree recursion twalk: leaf function on the leaves in leaf order, node function exactly once per internal node, on the node rebuilt from its already processed children, after all of them (C05_traverse_is_tree_recursion). The run compares (cmd 24) traverse results and complete call traces for 5x5 function behaviours on 1.5 k trees, and result and full call trace (argument identities) with the model '
         'for 0-3 rests (true suffixes with differing dict kind/order/maxlen, one-node edits, leaves) and four function behaviours including raising at call k, and checks the with_path/with_accessor/underscore variants, identity copy, traverse and walk on the implementation.',
-   note=TB + 'The with_path/with_accessor variants, traverse and walk are checked on the implementation only (against tree_map and the treespec paths); map(f∘g)=map(f)∘map(g) is not separately checked.',
+   note=TB + 'The with_path/with_accessor variants and walk (the raw-node form of traverse) are checked on the implementation only (against tree_map and the treespec paths); map(f∘g)=map(f)∘map(g) is not separately checked.',
    design='§7 C05'),
  'C06': dict(
    technique='Coq proof (lock-step decoding of two node arrays; counters determined by structure) + extracted-model correspondence + route-independence oracle',
